@@ -1501,6 +1501,7 @@ class Interp:
             # while loop: cond must be `iv < bound`
             c = strip_casts(cond)
             countdown = None
+            chunked = None
             if isinstance(c, tuple) and c[0] == "bin":
                 # `while n > 0 { n -= 1; .. }` / `while n != 0`: n iterations
                 cd = None
@@ -1510,7 +1511,16 @@ class Interp:
                     cd = c[3][2]
                 if cd is not None and is_c(steps.get(cd), -1):
                     countdown = cd
+                # `while n > c { ..; n -= s }` / `while n >= c`: a count-down in chunks of a constant s >= 1.  The trip
+                # count is ceil((n0 - c) / s) resp. floor((n0 - c) / s) + 1 when the loop is entered and 0 otherwise.
+                if countdown is None and c[1] in ("Gt", "Ge") and isinstance(c[2], tuple) and c[2][0] == "lc" \
+                        and c[2][1] == lid and is_c(c[3]) and isinstance(c[3][1], int) and c[3][1] >= 0:
+                    stc = steps.get(c[2][2])
+                    if is_c(stc) and isinstance(stc[1], int) and stc[1] <= -1 and not (c[1] == "Ge" and c[3][1] < -stc[1]):
+                        chunked = (c[2][2], c[1], c[3][1], -stc[1])
             if countdown is not None:
+                pass
+            elif chunked is not None:
                 pass
             elif not (isinstance(c, tuple) and c[0] == "bin" and c[1] == "Lt" and isinstance(c[2], tuple)
                     and c[2][0] == "lc" and c[2][1] == lid):
@@ -1538,6 +1548,15 @@ class Interp:
                 ivl = countdown
                 desc = ("range", lid, C(0), pre_env.get(ivl, ("?", "init")))
                 iv_local = ivl
+            elif chunked is not None:
+                ivl, cop, cc, cs = chunked
+                n0 = pre_env.get(ivl, ("?", "init"))
+                over = mk_bin("Sub", n0, C(cc))
+                trips = mk_bin("Div", mk_bin("Add", over, C(cs - 1)), C(cs)) if cop == "Gt" \
+                    else mk_bin("Add", mk_bin("Div", over, C(cs)), C(1))
+                trips = ("case", mk_bin(cop, n0, C(cc)), ((1, trips), (0, C(0))))
+                desc = ("range", lid, C(0), trips)
+                iv_local = ivl
             else:
                 ivl = c[2][2]
                 bound = c[3]
@@ -1554,6 +1573,7 @@ class Interp:
         else:
             iv_local = None
             countdown = None
+            chunked = None
 
         # fields with a constant step have the closed form init + iteration * step; steps of other fields may depend on them
         fclosed = {}
@@ -1581,6 +1601,8 @@ class Interp:
                 st = steps.get(l)
                 if l == iv_local and countdown is not None:
                     self.env[l] = mk_bin("Sub", pre_env.get(l, ("?", "init")), ("idx", lid))
+                elif l == iv_local and chunked is not None:
+                    self.env[l] = mk_bin("Sub", pre_env.get(l, ("?", "init")), mk_bin("Mul", ("idx", lid), C(chunked[3])))
                 elif l == iv_local:
                     self.env[l] = ("idx", lid)
                 elif st is None:
@@ -1632,6 +1654,8 @@ class Interp:
                 self.env[l] = ("?", "after-loop _%d" % l)
             elif is_c(st, 0):
                 pass
+            elif l == iv_local and chunked is not None:
+                self.env[l] = mk_bin("Sub", pre_env.get(l, ("?", "init")), mk_bin("Mul", desc[3], C(chunked[3])))
             elif l == iv_local:
                 self.env[l] = ("?", "iv-after-loop")
             else:
